@@ -154,6 +154,15 @@ func (fc *FnCtx) query(o *Oblig) string {
 			continue
 		}
 		fmt.Fprintf(&sb, "(assert %s)\n", Implies(reach(f.blk), f.t).S)
+		// explicit instances of universally quantified hypotheses at the goal's skolem terms
+		if len(o.InstTerms) > 0 {
+			for _, q := range topForalls(f.t.S) {
+				for _, it := range o.InstTerms {
+					inst := replaceVar(q.body, q.v, it.S)
+					fmt.Fprintf(&sb, "(assert %s)\n", Implies(reach(f.blk), Term{inst, SBool}).S)
+				}
+			}
+		}
 	}
 	for _, l := range o.Local {
 		fmt.Fprintf(&sb, "(assert %s)\n", l.S)
@@ -230,7 +239,12 @@ func runSolver(sp solverSpec, file string, timeoutSec int) solveResult {
 
 // solveOne runs the portfolio on one obligation.
 func (e *Engine) solveOne(o *Oblig, dir string, t1, t2 int) {
-	q := o.fc.query(o)
+	var q string
+	if o.RawQuery != "" {
+		q = o.RawQuery
+	} else {
+		q = o.fc.query(o)
+	}
 	o.Size = len(q)
 	file := filepath.Join(dir, sanitize(o.Name)+".smt2")
 	if err := os.WriteFile(file, []byte(q), 0644); err != nil {
@@ -369,4 +383,85 @@ func (e *Engine) solveAll(obs []*Oblig, dir string, t1, t2 int, workers int) {
 		}()
 	}
 	wg2.Wait()
+}
+
+type qform struct{ v, body string }
+
+// topForalls finds universally quantified conjuncts (single Int variable) at the top
+// level of a fact: "(forall ((x Int)) B)", possibly under a top-level "and", and with an
+// optional "(! B :pattern ...)" wrapper.
+func topForalls(s string) []qform {
+	var out []qform
+	var visit func(t string)
+	visit = func(t string) {
+		t = strings.TrimSpace(t)
+		if strings.HasPrefix(t, "(and ") {
+			for _, part := range splitSexprs(t[5 : len(t)-1]) {
+				visit(part)
+			}
+			return
+		}
+		if !strings.HasPrefix(t, "(forall ((") {
+			return
+		}
+		rest := t[len("(forall (("):]
+		sp := strings.Index(rest, " ")
+		if sp < 0 || !strings.HasPrefix(rest[sp:], " Int)) ") {
+			return
+		}
+		v := rest[:sp]
+		body := strings.TrimSpace(rest[sp+len(" Int)) ") : len(rest)-1])
+		if strings.HasPrefix(body, "(! ") {
+			parts := splitSexprs(body[3 : len(body)-1])
+			if len(parts) > 0 {
+				body = parts[0]
+			}
+		}
+		out = append(out, qform{v, body})
+	}
+	visit(s)
+	return out
+}
+
+// splitSexprs splits a sequence of s-expressions / atoms.
+func splitSexprs(s string) []string {
+	var out []string
+	i := 0
+	for i < len(s) {
+		for i < len(s) && s[i] == ' ' {
+			i++
+		}
+		if i >= len(s) {
+			break
+		}
+		j := i + sexprEnd(s[i:])
+		out = append(out, s[i:j])
+		i = j
+	}
+	return out
+}
+
+// replaceVar substitutes a bound variable name by a term, respecting token boundaries.
+func replaceVar(body, v, t string) string {
+	var sb strings.Builder
+	i := 0
+	for i < len(body) {
+		j := strings.Index(body[i:], v)
+		if j < 0 {
+			sb.WriteString(body[i:])
+			break
+		}
+		j += i
+		end := j + len(v)
+		okL := j == 0 || body[j-1] == ' ' || body[j-1] == '('
+		okR := end == len(body) || body[end] == ' ' || body[end] == ')'
+		sb.WriteString(body[i:j])
+		if okL && okR {
+			sb.WriteString(t)
+		} else {
+			sb.WriteString(v)
+		}
+		i = end
+	}
+	return sb.String()
 }
